@@ -115,7 +115,7 @@ def check_case(rec, case):
         t = case['tree']
         Dn = rx.denot(t, 3)
         rec.note_case(case, case['cls'], 0 < len(Dn) < 15)
-        selfcheck(rec, fa.language_upto(rx.thompson(t, 'ab'), 3) == Dn, t)
+        selfcheck(rec, fa.language_upto(rx.thompson(t, 'ab'), 3) == frozenset(w for w in Dn if set(w) <= set('ab')) or not rx.symbols(t) <= set('ab'), t)
         r = adapt.build_rx(t)
         o = call(ra.regexp_to_nfa, r)
         if not o.ok:
@@ -149,6 +149,13 @@ def gen_cases(rec, rng, tier):
             yield {'kind': 'rx', 'cls': 'comb', 'tree': rxg.comb(60, op, left=left)}
     for R in common.shard_slice(fag.enum_dfas(3, 2), rec):
         yield {'kind': 'dfa', 'cls': 'enum_dfa', 'ref': R, 'iso': h64(R)}
+    # binary alphabets: the symbols print like the regexp constants 0 and 1
+    for i, R in enumerate(common.shard_slice(fag.enum_dfas(3, 2), rec)):
+        if i % 2 == 0:
+            R2 = fag.with_alphabet(R, ('0', '1') if (i // 2) % 2 == 0 else ('1', '0'))
+            yield {'kind': 'dfa', 'cls': 'enum_dfa_binary', 'ref': R2, 'iso': h64(R2)}
+    for t in common.shard_slice(rxg.enum_trees(5, rxg.LEAVES01), rec):
+        yield {'kind': 'rx', 'cls': 'enum_tree_digit_symbols', 'tree': t}
     for (cls, R) in fag.hostile_dfas(rng):
         if len(R[0]) <= 5:
             yield {'kind': 'dfa', 'cls': 'hostile_' + cls, 'ref': R, 'iso': h64(R)}
@@ -156,6 +163,8 @@ def gen_cases(rec, rng, tier):
         n = rng.randint(2, 6 if thorough else 5)
         k = rng.randint(1, 3 if n <= 4 else 2)
         R = rng.choice([fag.random_dfa, fag.random_connected_dfa])(rng, n, k)
+        if rng.random() < 0.4 and k <= 2:
+            R = fag.with_alphabet(R, rng.choice([('0', '1'), ('1', '0'), ('1', 'a')])[:k])
         yield {'kind': 'dfa', 'cls': 'random_dfa', 'ref': R, 'iso': h64(R)}
         for _ in range(6 if thorough else 3):
             names = fag.random_names(rng, n, avoid=('start', 'accept'))
